@@ -30,6 +30,8 @@ void vp_native_assume(int c);
 #define VP_ASSUME(c) vp_native_assume(c)
 #define VP_REACH(m) ((void)0)
 #endif
-#define vp_memcpy memcpy
-#define vp_memmove memmove
-#define vp_memset memset
+/* zero-length copies are no-ops whatever the pointers are (memcpy(dst, NULL, 0) is what vector/optional code does for
+   empty ranges; it is formally undefined in ISO C but not a memory-safety event) */
+#define vp_memcpy(d, s, n) do { unsigned long vp_n_ = (n); if (vp_n_) memcpy((d), (s), vp_n_); } while (0)
+#define vp_memmove(d, s, n) do { unsigned long vp_n_ = (n); if (vp_n_) memmove((d), (s), vp_n_); } while (0)
+#define vp_memset(d, c, n) do { unsigned long vp_n_ = (n); if (vp_n_) memset((d), (c), vp_n_); } while (0)
